@@ -225,8 +225,10 @@ fn phases(thorough: bool, c16: bool) -> Vec<Phase> {
         })
         .collect();
     // big functions around size thresholds: every history of length <= 2 (3 for small sizes) over the full alphabet
+    let every_len: Vec<Vec<f64>> = (18..=(if thorough { 200 } else { 130 })).map(iota).collect();
     let big_units: Vec<HUnit<Probe>> = big_shapes(thorough, if thorough { 257 } else { 129 })
         .into_iter()
+        .chain(every_len.into_iter())
         .map(|e| {
             let d = if e.len() <= 17 { 3 } else { 2 };
             make_unit(e.clone(), probe_pw(&e), d, c16, "Probe")
@@ -274,6 +276,28 @@ fn phases(thorough: bool, c16: bool) -> Vec<Phase> {
         bounds: json!({"shapes": format!("for n in {:?}: 1..n, the centred list -n/2..n/2 (with +0.0 and with -0.0), three variants with periodic duplicate runs and one with a long run; for n = 33, 34, 65, 66 (100, 129 thorough) every list with a single duplicated end at each position", threshold_sizes(thorough).into_iter().filter(|&n| n <= if thorough { 257 } else { 129 }).collect::<Vec<_>>()),
                        "histories": "every history of length <= 2 (<= 3 for n <= 17) over the full order-complete alphabet A(ends)"}),
     });
+    if c16 {
+        // a NaN query needs a history around it: [x1, NaN, x2] and [x1, x2, NaN, x3] on big functions, reduced alphabet
+        let units: Vec<HUnit<Probe>> = [33usize, 64, 65, 66, 100, 129]
+            .into_iter()
+            .map(|n| {
+                let e = iota(n);
+                let mut u = make_unit_with(e.clone(), probe_pw(&e), 3, false, "Probe", reduced_alphabet(&e));
+                u.alpha.push(f64::NAN);
+                u.direct.push(guard(|| u.pw.evaluate(f64::NAN)).ok());
+                u
+            })
+            .collect();
+        let n = units.len();
+        v.push(Phase {
+            name: "big-functions-nan-histories",
+            units: n,
+            split: 2,
+            body: hist_body(Arc::new(units), true),
+            classes: classes(true).into_iter().map(|(n, _)| (n, false)).collect(),
+            bounds: json!({"shapes": "1..n for n = 33, 64, 65, 66, 100, 129", "histories": "every history of length <= 3 over the reduced alphabet (every end, one point per cell, one below, one above) plus NaN"}),
+        });
+    }
     v.push(debruijn_phase(thorough, c16));
     let n = nasty.len();
     v.push(Phase {
@@ -367,6 +391,7 @@ pub fn check_c03(thorough: bool, _seed: u64) -> Check {
 fn nopanic_phase(thorough: bool) -> Phase {
     let mut sh = shapes(&[1.0, 2.0, 3.0, 4.0, 5.0], if thorough { 5 } else { 4 });
     sh.extend(shapes(&nasty_values(), if thorough { 4 } else { 3 }));
+    sh.extend([17usize, 33, 63, 64, 65, 100, 129].into_iter().map(iota));
     let units: Vec<(Vec<f64>, Vec<f64>)> = sh
         .into_iter()
         .map(|e| {
@@ -419,7 +444,7 @@ fn nopanic_phase(thorough: bool) -> Phase {
         }),
         classes: vec![("nan_argument", true), ("infinite_argument", true)],
         split: 0,
-        bounds: json!({"shapes": "end lists over {1..5} and over the nasty value set", "arguments": "every pair (x1,x2) over A(ends) + 4 NaNs, fed to Piecewise::evaluate and evaluate_v"}),
+        bounds: json!({"shapes": "end lists over {1..5} and over the nasty value set; 1..n for n = 17, 33, 63, 64, 65, 100, 129", "arguments": "every pair (x1,x2) over A(ends) + 4 NaNs, fed to Piecewise::evaluate and evaluate_v"}),
     }
 }
 
